@@ -37,9 +37,10 @@ def build(n, delay, variant):
             else:
                 hb = Signal()
                 m.d.usb += hb.eq(~hb)
-                r = stretch_strobe_signal(m, self.strobe, to_cycles=n, output=self.out, domain=m.d.usb,
-                                          allow_delay=delay)
-                assert r is self.out
+                # the caller-provided output is what is observed (the way architecture/car.py uses the function);
+                # the return value is deliberately ignored here -- variant 0 covers it
+                stretch_strobe_signal(m, self.strobe, to_cycles=n, output=self.out, domain=m.d.usb,
+                                      allow_delay=delay)
             return m
 
     w = Wrapper()
